@@ -32,7 +32,9 @@ class ResultGetPictureIqProtocolEntity(PictureIqProtocolEntity):
 
     def toProtocolTreeNode(self):
         node = super(ResultGetPictureIqProtocolEntity, self).toProtocolTreeNode()
-        pictureNode = ProtocolTreeNode({"type": "preview" if self.isPreview() else "image" }, data = self.getPictureData())
+        pictureNode = ProtocolTreeNode("picture", {"type": "preview" if self.isPreview() else "image" }, data = self.getPictureData())
+        if self.getPictureId() is not None:
+            pictureNode["id"] = self.getPictureId()
         node.addChild(pictureNode)
         return node
 
